@@ -95,6 +95,28 @@ impl Model {
         }
     }
     
+    /// Bounds of an operand at posting time, or `None` when the integer variable under it has an
+    /// EMPTY domain (reversed bounds, an empty value set, or emptied by an earlier `x == c` with `c`
+    /// outside the domain). Such a variable is kept so that validation can report it from the solving
+    /// call, but it has no bounds: `SparseSet::min()` / `max()` must not be asked for them. The posting
+    /// methods that derive a result variable from their operands' bounds give it an empty domain too
+    /// (`empty_result_var`): the model is unsatisfiable either way and is reported as `InvalidDomain`.
+    pub(crate) fn operand_bounds(&self, x: impl crate::variables::View) -> Option<(Val, Val)> {
+        if let Some(var) = x.get_underlying_var_raw() {
+            if let crate::variables::Var::VarI(sparse_set) = &self.vars[var] {
+                if sparse_set.is_empty() {
+                    return None;
+                }
+            }
+        }
+        Some((x.min_raw(&self.vars), x.max_raw(&self.vars)))
+    }
+
+    /// Result variable of an operation one of whose operands has an empty domain: no value exists.
+    pub(crate) fn empty_result_var(&mut self) -> VarId {
+        self.new_var_unchecked(Val::ValI(1), Val::ValI(0))
+    }
+
     /// Create a new variable with memory limit checking
     /// 
     /// **Note**: This is a low-level internal method.
